@@ -27,6 +27,7 @@ class DCfg:
     depth: int = 1  # nesting depth of the inner DAGs available to 'sub' statements
     config: bool = False  # reconfigure priorities / is_sequential / max_concurrency by dict / yaml / json
     resources: str = "m"
+    twin: bool = False  # reachability twin: the harness ends with check(False), which must come back violated
 
 
 NOFLAG = object()
@@ -439,6 +440,8 @@ def run_dataflow(cfg: DCfg, c: Ctx) -> Any:
                 c.cover("w_flag_on_nested")
     if sum(counts_plain.values()) < len([s for s in stmts if s[0] == "call"]) + len([s for s in stmts if s[0] == "sub"]):
         c.cover("w_deactivated")
+    if cfg.twin:
+        c.check(False, "reachability twin: the end of the harness is reachable", prop="TWIN")
     return {"spec": spec, "outcome": "equal"}
 
 
